@@ -88,13 +88,13 @@ class SweepKind(Kind):
             if name == 'key_schedule':
                 continue
             for j in range(nin):
-                yield {'prim': name, 'col': j, 'count': top}
+                yield {'prim': name, 'col': j, 'start': 0, 'count': top}
 
     def run(self, case):
         import scared.des.base as B
         nin = PRIMS[case['prim']][1]
         a = np.zeros((case['count'], nin), dtype='uint8')
-        a[:, case['col']] = np.arange(case['count'], dtype='uint8')
+        a[:, case['col']] = np.arange(case['start'], case['start'] + case['count']).astype('uint8')
         before = a.copy()
         r = getattr(B, case['prim'])(a)
         if r.dtype != np.uint8 or r.ndim != 2 or r.shape[0] != case['count']:
@@ -102,8 +102,8 @@ class SweepKind(Kind):
         return {'rows': [pack(x) for x in r.tolist()], 'width': int(r.shape[1]), 'unchanged': bool((a == before).all())}
 
     def coq(self, case, obs):
-        return '{| ps_prim := %s; ps_col := %d; ps_count := %d; ps_obs := %s |}' % (
-            PRIMS[case['prim']][0], case['col'], case['count'], C.coq_list(obs.get('rows', []), C.coq_n))
+        return '{| ps_prim := %s; ps_col := %d; ps_start := %d; ps_count := %d; ps_obs := %s |}' % (
+            PRIMS[case['prim']][0], case['col'], case['start'], case['count'], C.coq_list(obs.get('rows', []), C.coq_n))
 
     def oracle(self, case, obs):
         if 'raised' in obs:
@@ -125,9 +125,11 @@ class SweepKind(Kind):
         return {'case': case, 'observed': o}
 
     def shrink(self, case):
-        # halve the swept range (the failing value stays in one half only if it is below the cut): keep the low half
+        # bisect the swept range down to the single failing value
         if case['count'] > 1:
-            yield dict(case, count=case['count'] // 2)
+            h = case['count'] // 2
+            yield dict(case, count=h)
+            yield dict(case, start=case['start'] + h, count=case['count'] - h)
 
 
 # --------------------------------------------------------------------------------------------- primitives: arbitrary inputs, n-D
@@ -265,6 +267,43 @@ def make_case(rng, form, dec, shape, stops, nrows, style='random'):
     return {'form': form, 'dec': bool(dec), 'shape': shape, 'keys': keys, 'blocks': blocks, 'stops': [list(s) for s in stops]}
 
 
+def _snapshot_state(B):
+    """Class-level lists of _ParametricCipher and module-level tables: (owner name, attribute, object, saved content)."""
+    snap = []
+    owners = [('scared.des.base', B)]
+    if hasattr(B, '_ParametricCipher'):
+        owners.append(('_ParametricCipher', B._ParametricCipher))
+    for oname, owner in owners:
+        for attr, obj in list(vars(owner).items()):
+            if attr.startswith('__'):
+                continue
+            if isinstance(obj, list):
+                snap.append((oname, attr, obj, list(obj)))
+            elif isinstance(obj, np.ndarray):
+                snap.append((oname, attr, obj, obj.copy()))
+    return snap
+
+
+def _changed_state(snap):
+    out = []
+    for oname, attr, obj, saved in snap:
+        if isinstance(obj, list):
+            same = len(obj) == len(saved) and all(a is b for a, b in zip(obj, saved))
+        else:
+            same = obj.shape == saved.shape and bool((obj == saved).all())
+        if not same:
+            out.append(f'{oname}.{attr}')
+    return out
+
+
+def _restore_state(snap):
+    for oname, attr, obj, saved in snap:
+        if isinstance(obj, list):
+            obj[:] = saved
+        elif obj.shape == saved.shape:
+            obj[...] = saved
+
+
 class CipherKind(Kind):
     name = 'des_cipher'
     header = HDR
@@ -321,6 +360,13 @@ class CipherKind(Kind):
         n = max(len(case['keys']), len(case['blocks']))
         fn = B.decrypt if case['dec'] else B.encrypt
         rows, notes = [], []
+        snap = _snapshot_state(B)
+        try:
+            return self._calls(case, fn, karr, barr, k0, b0, n, shape, rows, notes, snap, B)
+        finally:
+            _restore_state(snap)        # the next case starts from the module as imported, whatever this one did to it
+
+    def _calls(self, case, fn, karr, barr, k0, b0, n, shape, rows, notes, snap, B):
         for (d, r, s) in case['stops']:
             kw = {}
             if d is not None:
@@ -333,6 +379,9 @@ class CipherKind(Kind):
             if not (np.array_equal(karr, k0) and np.array_equal(barr, b0)):
                 notes.append(f'stop {(d, r, s)}: the caller\'s key or block array was modified')
                 karr, barr = k0.copy(), b0.copy()
+            for what in _changed_state(snap):
+                if not any(what in x for x in notes):
+                    notes.append(f'stop {(d, r, s)}: the call modified {what} (state shared by all later calls)')
             if out.dtype != np.uint8 or out.size != 8 * n:
                 return {'raised': 'BadResult', 'msg': f'stop {(d, r, s)}: dtype {out.dtype} shape {out.shape}'}
             ok_shapes = [(8,)] if (shape == 0 or n == 1) else [(n, 8)]
